@@ -32,7 +32,7 @@ FINGERPRINTS = [
     (D + "linter.py", ["DRYRule"]),
     (D + "file_analyzer.py", ["FileAnalyzer"]),
     (D + "inline_ignore.py", ["InlineIgnoreParser"]),
-    (D + "block_filter.py", ["KeywordArgumentFilter", "create_default_registry"]),
+    (D + "block_filter.py", ["KeywordArgumentFilter", "create_default_registry", "ImportGroupFilter", "LoggerCallFilter", "ExceptionReraiseFilter", "BlockFilterRegistry"]),
     (D + "violation_generator.py", ["_filter_ignored", "_is_ignored", "_filter_inline_ignored", "_filter_shared_ignored"]),
     ("src/linter_config/ignore.py", ["should_ignore_violation", "_is_ignored_in_content", "_check_block_ignore", "_process_block_line",
                                      "_check_prev_line_ignore", "_check_current_line_ignore", "_has_file_ignore_in_content"]),
@@ -636,6 +636,123 @@ def kwarg_filter():
             + defn("dry_kwarg_pattern", "string", coq_string(pat)))
 
 
+def _name_of(cls):
+    """the string a filter class returns from its `name` property"""
+    f = find_func(cls, "name")
+    b = _body(f)
+    if len(b) != 1 or not isinstance(b[0], ast.Return) or not isinstance(b[0].value, ast.Constant) or not isinstance(b[0].value.value, str):
+        raise Unsupported(f"{cls.name}.name changed")
+    return b[0].value.value
+
+
+SLICE = "lines = file_content.split('\\n')[block.start_line - 1:block.end_line]"
+
+
+def text_filters():
+    """the three text-only block filters of block_filter.py (ImportGroupFilter, LoggerCallFilter, ExceptionReraiseFilter),
+    the registry (order of registration, `any` over the enabled filters) and how dry.filters switches filters on and off"""
+    m = parse(D + "block_filter.py")
+    # ---- ImportGroupFilter.should_filter
+    c = find_class(m, "ImportGroupFilter")
+    b = _body(find_func(c, "should_filter"))
+    src = [ast.unparse(x) for x in b]
+    if len(b) != 3 or src[0] != SLICE or src[2] != "return True" or not isinstance(b[1], ast.For) or ast.unparse(b[1].target) != "line" \
+            or ast.unparse(b[1].iter) != "lines" or b[1].orelse:
+        raise Unsupported(f"ImportGroupFilter.should_filter changed: {src}")
+    lb = b[1].body
+    if len(lb) != 3 or ast.unparse(lb[0]) != "stripped = line.strip()" or ast.unparse(lb[1]) != "if not stripped:\n    continue" \
+            or not isinstance(lb[2], ast.If) or lb[2].orelse or [ast.unparse(x) for x in lb[2].body] != ["return False"]:
+        raise Unsupported(f"ImportGroupFilter loop changed: {[ast.unparse(x) for x in lb]}")
+    env = Env(names={"stripped": "stripped"}, calls={"stripped.startswith": "str_starts stripped"})
+    out = f"Definition dry_import_line_rejected (stripped : string) : bool := {tr(lb[2].test, env)}.\n"
+    # ---- LoggerCallFilter
+    c = find_class(m, "LoggerCallFilter")
+    init = find_func(c, "__init__")
+    pats = [n for n in ast.walk(init) if isinstance(n, ast.Call) and ast.unparse(n.func) == "re.compile"]
+    if len(pats) != 1 or len(pats[0].args) != 1 or pats[0].keywords or not isinstance(pats[0].args[0], ast.Constant) \
+            or "self._logger_pattern = re.compile(" not in ast.unparse(init):
+        raise Unsupported("LoggerCallFilter.__init__ changed")
+    pat = pats[0].args[0].value
+    word = r"[A-Za-z_][A-Za-z0-9_]*"
+    mm = re.fullmatch(r"\^\\s\*\((" + word + r")\\\.\)\?\((" + word + r"(?:\|" + word + r")*)\)\\\.\((" + word + r"(?:\|" + word + r")*)\)\\s\*\\\(", pat)
+    if not mm:
+        raise Unsupported(f"logger pattern has a new structure: {pat!r} (Model/DryFilter.v logger_line_gen was written for "
+                          r"^\s*(self\.)?(a|b)\.(m|n)\s*\( )")
+    b = _body(find_func(c, "should_filter"))
+    src = [ast.unparse(x) for x in b]
+    want = [SLICE, "non_empty = [s for line in lines if (s := line.strip())]", "if not non_empty:\n    return False", None, "return False"]
+    if len(b) != 5 or any(w is not None and w != x for w, x in zip(want, src)) or not isinstance(b[3], ast.If) or b[3].orelse \
+            or [ast.unparse(x) for x in b[3].body] != ["return bool(self._logger_pattern.match(non_empty[0]))"]:
+        raise Unsupported(f"LoggerCallFilter.should_filter changed: {src}")
+    env = Env(names={"non_empty": "n"}, calls={"len": "dry_id_nat"})
+    out += f"Definition dry_logger_single (n : nat) : bool := {tr(b[3].test, env)}.\n"
+    out += (defn("dry_logger_pattern", "string", coq_string(pat)) + defn("dry_logger_self", "string", coq_string(mm.group(1) + "."))
+            + defn("dry_logger_objs", "list string", coq_str_list(mm.group(2).split("|")))
+            + defn("dry_logger_meths", "list string", coq_str_list(mm.group(3).split("|"))))
+    # ---- ExceptionReraiseFilter
+    c = find_class(m, "ExceptionReraiseFilter")
+    b = _body(find_func(c, "should_filter"))
+    src = [ast.unparse(x) for x in b]
+    if len(b) != 4 or src[0] != SLICE or src[1] != "stripped_lines = [s for line in lines if (s := line.strip())]" \
+            or not isinstance(b[2], ast.If) or b[2].orelse or [ast.unparse(x) for x in b[2].body] != ["return False"] \
+            or src[3] != "return self._is_except_raise_pattern(stripped_lines)":
+        raise Unsupported(f"ExceptionReraiseFilter.should_filter changed: {src}")
+    env = Env(names={"stripped_lines": "n"}, calls={"len": "dry_id_nat"})
+    out += f"Definition dry_reraise_len_bad (n : nat) : bool := {tr(b[2].test, env)}.\n"
+    b = _body(find_func(c, "_is_except_raise_pattern"))
+    if not b or ast.unparse(b[0]) != "first, second = (lines[0], lines[1])":
+        raise Unsupported("_is_except_raise_pattern changed")
+    env = Env(names={"first": "first", "second": "second"},
+              calls={"first.startswith": "str_starts first", "first.endswith": "str_ends first",
+                     "second.startswith": "str_starts second", "second.endswith": "str_ends second"})
+    out += f"Definition dry_is_except_raise (first second : string) : bool := {tr_block(b[1:], env)}.\n"
+    # ---- registry: order of registration, any() over the enabled filters, dry.filters
+    reg = _body(find_func(m, "create_default_registry"))
+    src = [ast.unparse(x) for x in reg]
+    if src[:1] != ["registry = BlockFilterRegistry()"] or src[-1:] != ["return registry"]:
+        raise Unsupported("create_default_registry changed")
+    names = []
+    for line in src[1:-1]:
+        mm2 = re.fullmatch(r"registry\.register\((\w+)\((?:threshold=DEFAULT_KEYWORD_ARG_THRESHOLD)?\)\)", line)
+        if not mm2:
+            raise Unsupported(f"create_default_registry: {line}")
+        names.append(_name_of(find_class(m, mm2.group(1))))
+    known = {"keyword_argument_filter", "import_group_filter", "logger_call_filter", "exception_reraise_filter"}
+    if not set(names) <= known or len(set(names)) != len(names):
+        raise Unsupported(f"registry holds a filter the model does not know: {names}")
+    r = find_class(m, "BlockFilterRegistry")
+    if [ast.unparse(x) for x in _body(find_func(r, "register"))] != ["self._filters.append(filter_instance)", "self._enabled_filters.add(filter_instance.name)"] \
+            or [ast.unparse(x) for x in _body(find_func(r, "enable_filter"))] != ["self._enabled_filters.add(filter_name)"] \
+            or [ast.unparse(x) for x in _body(find_func(r, "disable_filter"))] != ["self._enabled_filters.discard(filter_name)"] \
+            or [ast.unparse(x) for x in _body(find_func(r, "should_filter_block"))] != [
+                "enabled_filters = (f for f in self._filters if f.name in self._enabled_filters)",
+                "return any((f.should_filter(block, file_content) for f in enabled_filters))"]:
+        raise Unsupported("BlockFilterRegistry changed")
+    fa = find_class(parse(D + "file_analyzer.py"), "FileAnalyzer")
+    want = ["registry = create_default_registry()", "if not config:\n    return registry",
+            "for filter_name, enabled in config.filters.items():\n    if enabled:\n        registry.enable_filter(filter_name)\n    else:\n        registry.disable_filter(filter_name)",
+            "return registry"]
+    if [ast.unparse(x) for x in _body(find_func(fa, "_create_filter_registry"))] != want:
+        raise Unsupported("FileAnalyzer._create_filter_registry changed")
+    init = ast.unparse(find_func(fa, "__init__"))
+    if "self._python_analyzer = PythonDuplicateAnalyzer(filter_registry)" not in init or "self._typescript_analyzer = TypeScriptDuplicateAnalyzer()" not in init:
+        raise Unsupported("FileAnalyzer.__init__ changed (which analyzer receives the configured registry)")
+    for rel, cls in ((D + "python_analyzer.py", "PythonDuplicateAnalyzer"), (D + "typescript_analyzer.py", "TypeScriptDuplicateAnalyzer")):
+        if "self._filter_registry = filter_registry or create_default_registry()" not in ast.unparse(find_func(find_class(parse(rel), cls), "__init__")):
+            raise Unsupported(f"{cls}.__init__ changed")
+    fd = find_func(find_class(parse(D + "config.py"), "DRYConfig"), "from_dict")
+    dflt = None
+    for st in ast.walk(fd):
+        if isinstance(st, ast.Assign) and ast.unparse(st.targets[0]) == "default_filters" and isinstance(st.value, ast.Dict):
+            dflt = [(const_value(k), const_value(v)) for k, v in zip(st.value.keys, st.value.values)]
+    u = ast.unparse(fd)
+    if dflt is None or "custom_filters = config.get('filters', {})" not in u or "filters = {**default_filters, **custom_filters}" not in u \
+            or "filters=filters" not in u or not all(isinstance(k, str) and isinstance(v, bool) for k, v in dflt):
+        raise Unsupported("DRYConfig.from_dict filters changed")
+    pairs = "[" + "; ".join(f"({coq_string(k)}, {'true' if v else 'false'})" for k, v in dflt) + "]"
+    return out + defn("dry_registry", "list string", coq_str_list(names)) + defn("dry_filter_defaults", "list (string * bool)", pairs)
+
+
 ITEMS = [
     ("import_tables", import_tables),
     ("comment_markers", comment_markers),
@@ -654,4 +771,5 @@ ITEMS = [
     ("config_keys", config_keys),
     ("suppression", suppression),
     ("kwarg_filter", kwarg_filter),
+    ("text_filters", text_filters),
 ]
